@@ -55,12 +55,17 @@ def canon(net):
     )
 
 
-def build(cgmod, net):
-    """Materialise a net as a circuitgraph.Circuit directly on the graph (no construction API)."""
+def build(cgmod, net, sparse=False):
+    """Materialise a net as a circuitgraph.Circuit directly on the graph (no construction API).
+    sparse: nodes that are not outputs carry no `output` attribute at all, as in circuits made by the fast
+    Verilog reader or by Circuit(graph=g) from a hand-built graph (is_output() treats a missing key as False)."""
     c = cgmod.Circuit(name=net["name"])
     g = c.graph
     for n, (t, fi, o) in net["nodes"].items():
-        g.add_node(n, type=t, output=bool(o))
+        if sparse and not o:
+            g.add_node(n, type=t)
+        else:
+            g.add_node(n, type=t, output=bool(o))
     for n, (t, fi, o) in net["nodes"].items():
         for f in fi:
             g.add_edge(f, n)
